@@ -10,6 +10,7 @@ use crate::core::runner::{guarded, Batch, Property, Report, Tier};
 use crate::core::tape::{
     decode_shuffle, factorial, nth_permutation, words_for_permutation, TapeGuard, TapeSpec, Word,
 };
+use serde::de::DeserializeOwned;
 use serde::{Deserialize, Serialize};
 use serde_json::{json, Value};
 use smartcore::api::{Predictor, SupervisedEstimator};
@@ -51,6 +52,35 @@ pub struct Case {
     /// order in which the parameter builders are called: 0 = c, tol, epoch/eps, kernel; 1 = kernel first, then the rest reversed
     #[serde(default)]
     pub ctor: u8,
+    #[serde(default)]
+    pub post: Post,
+}
+
+/// what is done with the fitted model besides the standard queries (derived from the case seed; swarm style)
+#[derive(Serialize, Deserialize, Clone, Debug, PartialEq, Default)]
+pub struct Post {
+    /// > 0: one more call with this many query rows (the standard rows repeated in a scrambled order): code that
+    /// processes rows in blocks (1024, 4096, 65536) meets its block boundaries only with that many rows in one call
+    #[serde(default)]
+    pub many: usize,
+    /// 1 = the model also goes through a bincode round trip, 2 = through serde_json values, before the same queries
+    /// are asked again: a restored model is a model
+    #[serde(default)]
+    pub roundtrip: u8,
+}
+
+fn post_of(seed: u64) -> Post {
+    let mut r = Xo::fork(seed, "post");
+    let many = if r.chance(0.012) { *r.pick(&[1030usize, 1030, 2060, 4100, 4100, 8200, 16_400, 65_600]) } else { 0 };
+    let roundtrip = if r.chance(0.2) { 1 + r.below(2) as u8 } else { 0 };
+    Post { many, roundtrip }
+}
+
+/// scrambled repetition of m standard rows up to `total` rows: source index of every row of the big matrix
+fn many_rows_src(total: usize, m: usize, seed: u64) -> Vec<usize> {
+    let stride = 1 + (seed % 7) as usize;
+    let off = (seed / 7 % m as u64) as usize;
+    (0..total).map(|j| (j * stride + off + j / m) % m).collect()
 }
 
 pub struct C10;
@@ -217,8 +247,8 @@ fn decode_schedule(n: usize, words: &[Word], shuffles: usize) -> Vec<Vec<usize>>
 impl C10 {
     fn run_svc<T, K>(&self, case: &Case, inner: K, rep: &mut Report)
     where
-        T: RealNumber + Serialize,
-        K: Kernel<T, Vec<T>> + Serialize + Clone,
+        T: RealNumber + Serialize + DeserializeOwned,
+        K: Kernel<T, Vec<T>> + Serialize + DeserializeOwned + Clone,
     {
         let n = case.x.len();
         // the implementation sees the parameters rounded to the element type; the oracles must judge against those
@@ -374,6 +404,8 @@ impl C10 {
         q.extend(case.queries.iter().map(|r| r.iter().map(|v| T::from_f64(*v).unwrap().to_f64().unwrap()).collect::<Vec<f64>>()));
         let qm: DenseMatrix<T> = mat(&q);
         let before = count.get();
+        let mut base_out: Option<(Vec<f64>, Vec<f64>)> = None;
+        let mut mags: Vec<f64> = vec![f64::INFINITY; q.len()];
         match guarded(|| (model.decision_function(&qm), if case.ctor / 2 == 1 { Predictor::<DenseMatrix<T>, Vec<T>>::predict(&model, &qm) } else { model.predict(&qm) })) {
             Err(msg) => rep.fail("panic", "svc-predict", format!("{}: decision_function/predict panicked: {}", ctx, msg)),
             Ok((Ok(dv), Ok(lab))) => {
@@ -383,6 +415,7 @@ impl C10 {
                 if dv.len() != q.len() || lab.len() != q.len() {
                     rep.fail("shape", "svc-predict", format!("{}: {} decision values / {} labels for {} rows", ctx, dv.len(), lab.len(), q.len()));
                 } else {
+                    base_out = Some((dv.clone(), lab.clone()));
                     for (i, row) in q.iter().enumerate() {
                         let mut f = b;
                         let mut mag = 1.0 + b.abs();
@@ -401,6 +434,7 @@ impl C10 {
                         let tmax = if case.f32m { f32::MAX as f64 } else { f64::MAX };
                         // (kernel values themselves, and the powers on the way to them, overflow before the weighted sum does)
                         let overflow = !(mag.is_finite() && mag < tmax * 1e-3 && kmax < tmax * 1e-6);
+                        mags[i] = if overflow { f64::INFINITY } else { mag };
                         if (!dv[i].is_finite() && !overflow) || !lab[i].is_finite() {
                             rep.fail("non-finite", "svc-predict", format!("{}: decision value {} / label {} for row {:?}", ctx, dv[i], lab[i], row));
                             break;
@@ -505,6 +539,64 @@ impl C10 {
                 }
             }
         }
+        // 6c./6d. the same rows again - many of them in one call, and through a restored copy of the model. Every
+        // answer must agree with the first one (both are within `expand` of the closed-form expansion) and obey the
+        // label rule on its own decision value.
+        if rep.violation.is_none() && classes.len() == 2 {
+            if let Some((dv0, _lab0)) = &base_out {
+                let same = |what: &str, rep: &mut Report, src: &[usize], dvb: &[f64], labb: &[f64]| {
+                    if dvb.len() != src.len() || labb.len() != src.len() {
+                        rep.fail("shape", "svc-predict", format!("{}: {}: {} decision values / {} labels for {} rows", ctx, what, dvb.len(), labb.len(), src.len()));
+                        return;
+                    }
+                    for (j, s) in src.iter().enumerate() {
+                        let (a, b0) = (dvb[j], dv0[*s]);
+                        let agree = if mags[*s].is_finite() { (a - b0).abs() <= 2.0 * t.expand * mags[*s] } else { true };
+                        if !agree {
+                            rep.fail("kernel-expansion", "svc-decision-function", format!("{}: {}: row {} of {} ({:?}) has decision value {:e}, but {:e} when asked in the standard call", ctx, what, j, src.len(), q[*s], a, b0));
+                            return;
+                        }
+                        let want = if a > 0.0 { classes[1] } else { classes[0] };
+                        if labb[j] != want {
+                            rep.fail("label-rule", "svc-predict", format!("{}: {}: row {} of {} ({:?}): predict = {} although the decision value is {:e} (classes {:?})", ctx, what, j, src.len(), q[*s], labb[j], a, classes));
+                            return;
+                        }
+                    }
+                };
+                let tof = |v: Vec<T>| -> Vec<f64> { v.iter().map(|x| x.to_f64().unwrap_or(f64::NAN)).collect() };
+                if case.post.many > 0 {
+                    let src = many_rows_src(case.post.many, q.len(), case.tape.seed);
+                    let big: Vec<Vec<f64>> = src.iter().map(|s| q[*s].clone()).collect();
+                    let bm: DenseMatrix<T> = mat(&big);
+                    rep.count("fault.many-rows-in-one-call", 1);
+                    rep.count("steps.rows-in-many-row-calls", src.len() as u64);
+                    match guarded(|| (model.decision_function(&bm), model.predict(&bm))) {
+                        Ok((Ok(dvb), Ok(labb))) => same(&format!("one call with {} rows", src.len()), rep, &src, &tof(dvb), &tof(labb)),
+                        Ok((a, bb)) => rep.fail("predict-error", "svc-predict", format!("{}: decision_function / predict on {} rows failed: {:?} {:?}", ctx, src.len(), a.err().map(|e| e.to_string()), bb.err().map(|e| e.to_string()))),
+                        Err(msg) => rep.fail("panic", "svc-predict", format!("{}: decision_function / predict on {} rows panicked: {}", ctx, src.len(), msg)),
+                    }
+                }
+                if case.post.roundtrip > 0 && rep.violation.is_none() {
+                    let restored: Result<SVC<T, DenseMatrix<T>, Counting<K>>, String> = if case.post.roundtrip == 1 {
+                        bincode::serialize(&model).map_err(|e| e.to_string()).and_then(|b| bincode::deserialize(&b).map_err(|e| e.to_string()))
+                    } else {
+                        serde_json::to_value(&model).map_err(|e| e.to_string()).and_then(|v| serde_json::from_value(v).map_err(|e| e.to_string()))
+                    };
+                    rep.count("fault.model-restored-from-serialised-form", 1);
+                    match restored {
+                        Err(e) => rep.fail("restore-failed", "svc-model", format!("{}: the fitted model does not survive serialisation: {}", ctx, e)),
+                        Ok(m2) => {
+                            let src: Vec<usize> = (0..q.len()).collect();
+                            match guarded(|| (m2.decision_function(&qm), m2.predict(&qm))) {
+                                Ok((Ok(dvb), Ok(labb))) => same("restored model", rep, &src, &tof(dvb), &tof(labb)),
+                                Ok((a, bb)) => rep.fail("predict-error", "svc-predict", format!("{}: restored model: decision_function / predict failed: {:?} {:?}", ctx, a.err().map(|e| e.to_string()), bb.err().map(|e| e.to_string()))),
+                                Err(msg) => rep.fail("panic", "svc-predict", format!("{}: restored model: decision_function / predict panicked: {}", ctx, msg)),
+                            }
+                        }
+                    }
+                }
+            }
+        }
         rep.count("steps.kernel_evals_predict", count.get() - before);
         rep.count("probe.conflicting-duplicate-sv", conflicting_dups as u64);
         rep.count("probe.no-support-vectors", inst.is_empty() as u64);
@@ -530,8 +622,8 @@ impl C10 {
 
     fn run_svr<T, K>(&self, case: &Case, inner: K, rep: &mut Report)
     where
-        T: RealNumber + Serialize,
-        K: Kernel<T, Vec<T>> + Serialize + Clone,
+        T: RealNumber + Serialize + DeserializeOwned,
+        K: Kernel<T, Vec<T>> + Serialize + DeserializeOwned + Clone,
     {
         let n = case.x.len();
         // the implementation sees the parameters rounded to the element type; the oracles must judge against those
@@ -654,12 +746,17 @@ impl C10 {
         let mut q: Vec<Vec<f64>> = xs.clone();
         q.extend(case.queries.iter().map(|r| r.iter().map(|v| T::from_f64(*v).unwrap().to_f64().unwrap()).collect::<Vec<f64>>()));
         let qm: DenseMatrix<T> = mat(&q);
+        let mut base_pr: Option<Vec<f64>> = None;
+        let mut mags: Vec<f64> = vec![f64::INFINITY; q.len()];
         match guarded(|| if case.ctor / 2 == 1 { Predictor::<DenseMatrix<T>, Vec<T>>::predict(&model, &qm) } else { model.predict(&qm) }) {
             Err(msg) => rep.fail("panic", "svr-predict", format!("{}: predict panicked: {}", ctx, msg)),
             Ok(Err(e)) => rep.fail("predict-error", "svr-predict", format!("{}: predict failed: {}", ctx, e)),
             Ok(Ok(pr)) => {
                 let pr: Vec<f64> = pr.iter().map(|v| v.to_f64().unwrap_or(f64::NAN)).collect();
                 d.f64s(&pr);
+                if pr.len() == q.len() {
+                    base_pr = Some(pr.clone());
+                }
                 let yscale = ys.iter().fold(1.0f64, |m, v| m.max(v.abs()));
                 for (i, row) in q.iter().enumerate() {
                     let mut f = b;
@@ -669,6 +766,7 @@ impl C10 {
                         f += w[j] * kv;
                         mag += (w[j] * kv).abs();
                     }
+                    mags[i] = mag;
                     let err = (pr[i] - f).abs() / mag;
                     rep.max(if case.f32m { "svr_expansion_err_rel_f32" } else { "svr_expansion_err_rel_f64" }, err);
                     if !(err <= t.expand) {
@@ -718,6 +816,54 @@ impl C10 {
                                 format!("{}: training point {} has w = {:e}, residual y - f(x) = {:e}, eps = {}: {} (slack {:e})", ctx, i, wrow[i], r, eps_eff, what, slack),
                             );
                             break;
+                        }
+                    }
+                }
+            }
+        }
+        if rep.violation.is_none() {
+            if let Some(pr0) = &base_pr {
+                let same = |what: &str, rep: &mut Report, src: &[usize], prb: &[f64]| {
+                    if prb.len() != src.len() {
+                        rep.fail("shape", "svr-predict", format!("{}: {}: {} predictions for {} rows", ctx, what, prb.len(), src.len()));
+                        return;
+                    }
+                    for (j, s) in src.iter().enumerate() {
+                        if !((prb[j] - pr0[*s]).abs() <= 2.0 * t.expand * mags[*s]) {
+                            rep.fail("kernel-expansion", "svr-predict", format!("{}: {}: row {} of {} ({:?}) is predicted as {:e}, but as {:e} in the standard call", ctx, what, j, src.len(), q[*s], prb[j], pr0[*s]));
+                            return;
+                        }
+                    }
+                };
+                let tof = |v: Vec<T>| -> Vec<f64> { v.iter().map(|x| x.to_f64().unwrap_or(f64::NAN)).collect() };
+                if case.post.many > 0 {
+                    let src = many_rows_src(case.post.many, q.len(), case.tape.seed);
+                    let big: Vec<Vec<f64>> = src.iter().map(|s| q[*s].clone()).collect();
+                    let bm: DenseMatrix<T> = mat(&big);
+                    rep.count("fault.many-rows-in-one-call", 1);
+                    rep.count("steps.rows-in-many-row-calls", src.len() as u64);
+                    match guarded(|| model.predict(&bm)) {
+                        Ok(Ok(prb)) => same(&format!("one call with {} rows", src.len()), rep, &src, &tof(prb)),
+                        Ok(Err(e)) => rep.fail("predict-error", "svr-predict", format!("{}: predict on {} rows failed: {}", ctx, src.len(), e)),
+                        Err(msg) => rep.fail("panic", "svr-predict", format!("{}: predict on {} rows panicked: {}", ctx, src.len(), msg)),
+                    }
+                }
+                if case.post.roundtrip > 0 && rep.violation.is_none() {
+                    let restored: Result<SVR<T, DenseMatrix<T>, Counting<K>>, String> = if case.post.roundtrip == 1 {
+                        bincode::serialize(&model).map_err(|e| e.to_string()).and_then(|b| bincode::deserialize(&b).map_err(|e| e.to_string()))
+                    } else {
+                        serde_json::to_value(&model).map_err(|e| e.to_string()).and_then(|v| serde_json::from_value(v).map_err(|e| e.to_string()))
+                    };
+                    rep.count("fault.model-restored-from-serialised-form", 1);
+                    match restored {
+                        Err(e) => rep.fail("restore-failed", "svr-model", format!("{}: the fitted model does not survive serialisation: {}", ctx, e)),
+                        Ok(m2) => {
+                            let src: Vec<usize> = (0..q.len()).collect();
+                            match guarded(|| m2.predict(&qm)) {
+                                Ok(Ok(prb)) => same("restored model", rep, &src, &tof(prb)),
+                                Ok(Err(e)) => rep.fail("predict-error", "svr-predict", format!("{}: restored model: predict failed: {}", ctx, e)),
+                                Err(msg) => rep.fail("panic", "svr-predict", format!("{}: restored model: predict panicked: {}", ctx, msg)),
+                            }
                         }
                     }
                 }
@@ -836,7 +982,7 @@ impl C10 {
         rep.log_digest = d.get();
     }
 
-    fn dispatch<T: RealNumber + Serialize>(&self, case: &Case, rep: &mut Report) {
+    fn dispatch<T: RealNumber + Serialize + DeserializeOwned>(&self, case: &Case, rep: &mut Report) {
         let g = T::from_f64(case.kernel.gamma).unwrap();
         let dg = T::from_f64(case.kernel.degree).unwrap();
         let c0 = T::from_f64(case.kernel.coef0).unwrap();
@@ -1059,7 +1205,7 @@ fn gen_case(batch: &str, index: u64, seed: u64) -> Case {
                 1 => KSpec { kind: "rbf".into(), gamma: 0.5, degree: 0.0, coef0: 0.0 },
                 _ => KSpec { kind: "poly".into(), gamma: 0.5, degree: 2.0, coef0: 1.0 },
             };
-            Case { model: "svc".into(), x, y, kernel, c: [0.1, 1.0, 10.0][(index % 3) as usize], tol: 1e-3, epoch: 1, eps: 0.0, f32m: false, queries: vec![vec![0.25; small_datasets()[*di].0[0].len()]], budget: DEFAULT_BUDGET, tape: TapeSpec::prng(tape_seed).with_prefix(words.clone()), kind: "forced-permutation/exhaustive".into(), ctor: (seed % 4) as u8 }
+            Case { model: "svc".into(), x, y, kernel, c: [0.1, 1.0, 10.0][(index % 3) as usize], tol: 1e-3, epoch: 1, eps: 0.0, f32m: false, queries: vec![vec![0.25; small_datasets()[*di].0[0].len()]], budget: DEFAULT_BUDGET, tape: TapeSpec::prng(tape_seed).with_prefix(words.clone()), kind: "forced-permutation/exhaustive".into(), ctor: (seed % 4) as u8, post: post_of(seed) }
         }
         "kernels" | "kernels-f32" => {
             let m = pr.usize_in(2, 10);
@@ -1077,7 +1223,20 @@ fn gen_case(batch: &str, index: u64, seed: u64) -> Case {
                 // every small integer degree, including the constant kernel (degree 0)
                 kernel.degree = *pr.pick(&[0.0, 0.0, 1.0, 2.0, 3.0, 4.0, 5.0]);
             }
-            Case { model: "kernel".into(), x, y: vec![], kernel, c: 1.0, tol: 1e-3, epoch: 1, eps: 0.0, f32m, queries: vec![], budget: 0, tape: TapeSpec::prng(tape_seed), kind: "kernel-closed-form".into(), ctor: (seed % 4) as u8 }
+            let mut x = x;
+            if kernel.kind == "poly" && pr.chance(0.3) {
+                // the degree is a real number: fractional powers of a non-negative base are part of the closed form
+                kernel.degree = if pr.chance(0.6) { *pr.pick(&[0.5, 1.5, 2.5, 3.5]) } else { pr.range(0.05, 4.95) };
+                if kernel.degree < 1.0 || pr.chance(0.7) {
+                    for row in x.iter_mut() {
+                        for v in row.iter_mut() {
+                            *v = v.abs();
+                        }
+                    }
+                    kernel.coef0 = kernel.coef0.abs();
+                }
+            }
+            Case { model: "kernel".into(), x, y: vec![], kernel, c: 1.0, tol: 1e-3, epoch: 1, eps: 0.0, f32m, queries: vec![], budget: 0, tape: TapeSpec::prng(tape_seed), kind: "kernel-closed-form".into(), ctor: (seed % 4) as u8, post: post_of(seed) }
         }
         "svr-hard" | "svr-hard-tight" => {
             // the slowly converging corner the fast batch leaves out: large C times large kernel values
@@ -1096,7 +1255,7 @@ fn gen_case(batch: &str, index: u64, seed: u64) -> Case {
                 _ => KSpec { kind: "rbf".into(), gamma: *pr.pick(&[0.1, 0.5]), degree: 0.0, coef0: 0.0 },
             };
             let queries = (0..3).map(|_| (0..p).map(|_| r.range(-3.0, 3.0)).collect()).collect();
-            Case { model: "svr".into(), x, y, kernel, c: 100.0, tol: if batch == "svr-hard-tight" { 1e-4 } else { 1e-3 }, epoch: 0, eps: *pr.pick(&[0.0, 0.1]), f32m: false, queries, budget: 4_000_000_000, tape: TapeSpec::prng(tape_seed), kind: "svr-hard".into(), ctor: (seed % 4) as u8 }
+            Case { model: "svr".into(), x, y, kernel, c: 100.0, tol: if batch == "svr-hard-tight" { 1e-4 } else { 1e-3 }, epoch: 0, eps: *pr.pick(&[0.0, 0.1]), f32m: false, queries, budget: 4_000_000_000, tape: TapeSpec::prng(tape_seed), kind: "svr-hard".into(), ctor: (seed % 4) as u8, post: post_of(seed) }
         }
         "svr-large-features" => {
             // large kernel curvature (linear kernel on features of magnitude 30..300, quadratic on ~10): steps in
@@ -1112,7 +1271,7 @@ fn gen_case(batch: &str, index: u64, seed: u64) -> Case {
             let eps = *pr.pick(&[0.1, 0.2]);
             let y: Vec<f64> = x.iter().map(|row| row.iter().zip(&coef).map(|(a, b)| a * b).sum::<f64>() + 0.5 * eps * r.range(-1.0, 1.0)).collect();
             let kernel = if quad { KSpec { kind: "poly".into(), gamma: 0.5, degree: 2.0, coef0: 1.0 } } else { KSpec { kind: "linear".into(), gamma: 0.0, degree: 0.0, coef0: 0.0 } };
-            Case { model: "svr".into(), x, y, kernel, c: *pr.pick(&[0.1, 1.0]), tol: 1e-3, epoch: 0, eps, f32m: f32v, queries: vec![], budget: 500_000_000, tape: TapeSpec::prng(tape_seed), kind: "svr-large-features".into(), ctor: (seed % 4) as u8 }
+            Case { model: "svr".into(), x, y, kernel, c: *pr.pick(&[0.1, 1.0]), tol: 1e-3, epoch: 0, eps, f32m: f32v, queries: vec![], budget: 500_000_000, tape: TapeSpec::prng(tape_seed), kind: "svr-large-features".into(), ctor: (seed % 4) as u8, post: post_of(seed) }
         }
         "svr-f32-resolution" => {
             // single precision with targets so large that tol lies below the resolution of the gradient values
@@ -1123,7 +1282,7 @@ fn gen_case(batch: &str, index: u64, seed: u64) -> Case {
             let yoff = *pr.pick(&[1000.0, -1000.0, 10_000.0, 100_000.0]);
             let y: Vec<f64> = (0..n).map(|_| yoff + r.range(-1.5, 1.5)).collect();
             let kernel = if pr.chance(0.7) { KSpec { kind: "rbf".into(), gamma: *pr.pick(&[0.5, 1.0]), degree: 0.0, coef0: 0.0 } } else { KSpec { kind: "linear".into(), gamma: 0.0, degree: 0.0, coef0: 0.0 } };
-            Case { model: "svr".into(), x, y, kernel, c: *pr.pick(&[10.0, 100.0]), tol: *pr.pick(&[1e-3, 1e-4]), epoch: 0, eps: *pr.pick(&[0.0, 0.1]), f32m: true, queries: vec![], budget: 500_000_000, tape: TapeSpec::prng(tape_seed), kind: "svr-f32-resolution".into(), ctor: (seed % 4) as u8 }
+            Case { model: "svr".into(), x, y, kernel, c: *pr.pick(&[10.0, 100.0]), tol: *pr.pick(&[1e-3, 1e-4]), epoch: 0, eps: *pr.pick(&[0.0, 0.1]), f32m: true, queries: vec![], budget: 500_000_000, tape: TapeSpec::prng(tape_seed), kind: "svr-f32-resolution".into(), ctor: (seed % 4) as u8, post: post_of(seed) }
         }
         "svr-f32-offcentre" => {
             // single precision, feature columns far from zero relative to their spread (offset 16..256, spread 1) and
@@ -1138,7 +1297,7 @@ fn gen_case(batch: &str, index: u64, seed: u64) -> Case {
             let kernel = if pr.chance(0.6) { KSpec { kind: "poly".into(), gamma: 0.5, degree: 2.0, coef0: 1.0 } } else { KSpec { kind: "linear".into(), gamma: 0.0, degree: 0.0, coef0: 0.0 } };
             // C = 100 only beyond the quick tier's 300 runs: some of those fits wander for 1e8 updates before they settle
             let c = if index >= 300 { *pr.pick(&[1.0, 10.0, 100.0]) } else { *pr.pick(&[1.0, 10.0]) };
-            Case { model: "svr".into(), x, y, kernel, c, tol: *pr.pick(&[1e-4, 1e-3]), epoch: 0, eps: 0.05, f32m: true, queries: vec![], budget: 2_000_000_000, tape: TapeSpec::prng(tape_seed), kind: "svr-f32-offcentre".into(), ctor: (seed % 4) as u8 }
+            Case { model: "svr".into(), x, y, kernel, c, tol: *pr.pick(&[1e-4, 1e-3]), epoch: 0, eps: 0.05, f32m: true, queries: vec![], budget: 2_000_000_000, tape: TapeSpec::prng(tape_seed), kind: "svr-f32-offcentre".into(), ctor: (seed % 4) as u8, post: post_of(seed) }
         }
         "svr-resonant" => {
             // parameters tuned to the data. SMO moves coefficients to the unclipped optimum of a pair,
@@ -1185,7 +1344,7 @@ fn gen_case(batch: &str, index: u64, seed: u64) -> Case {
             }
             let nq = pr.usize_in(0, 2);
             let queries = (0..nq).map(|_| (0..p).map(|_| r.range(0.0, 4.0)).collect()).collect();
-            Case { model: "svr".into(), x, y, kernel, c, tol: *pr.pick(&[1e-2, 1e-3]), epoch: 0, eps, f32m: false, queries, budget: 500_000_000, tape: TapeSpec::prng(tape_seed), kind: "svr-resonant".into(), ctor: (seed % 4) as u8 }
+            Case { model: "svr".into(), x, y, kernel, c, tol: *pr.pick(&[1e-2, 1e-3]), epoch: 0, eps, f32m: false, queries, budget: 500_000_000, tape: TapeSpec::prng(tape_seed), kind: "svr-resonant".into(), ctor: (seed % 4) as u8, post: post_of(seed) }
         }
         "svr-marathon" => {
             // converging fits that need 1e6..1e8 SMO updates: tiny n (each update is cheap), one feature of magnitude
@@ -1200,7 +1359,7 @@ fn gen_case(batch: &str, index: u64, seed: u64) -> Case {
                 let b: Vec<f64> = (0..n).map(|_| r.range(-1.5, 1.5)).collect();
                 let x: Vec<Vec<f64>> = (0..n).map(|i| vec![s2 * r.range(-2.0, 2.0), b[i]]).collect();
                 let y: Vec<f64> = b.iter().map(|v| 2.0 * v).collect();
-                return Case { model: "svr".into(), x, y, kernel: KSpec { kind: "linear".into(), gamma: 0.0, degree: 0.0, coef0: 0.0 }, c: 100.0, tol: 1e-4, epoch: 0, eps: 0.0, f32m: false, queries: vec![], budget: 100_000_000_000, tape: TapeSpec::prng(tape_seed), kind: "svr-marathon".into(), ctor: (seed % 4) as u8 };
+                return Case { model: "svr".into(), x, y, kernel: KSpec { kind: "linear".into(), gamma: 0.0, degree: 0.0, coef0: 0.0 }, c: 100.0, tol: 1e-4, epoch: 0, eps: 0.0, f32m: false, queries: vec![], budget: 100_000_000_000, tape: TapeSpec::prng(tape_seed), kind: "svr-marathon".into(), ctor: (seed % 4) as u8, post: post_of(seed) };
             }
             let n = pr.usize_in(4, 8);
             let scale = logu(&mut pr, 300.0, 1000.0);
@@ -1209,7 +1368,7 @@ fn gen_case(batch: &str, index: u64, seed: u64) -> Case {
             let c = (u / (scale * scale)).min(100.0).max(0.1);
             let x: Vec<Vec<f64>> = (0..n).map(|_| vec![scale * r.range(-1.0, 1.0)]).collect();
             let y: Vec<f64> = (0..n).map(|_| r.range(-1.5, 1.5)).collect();
-            Case { model: "svr".into(), x, y, kernel: KSpec { kind: "linear".into(), gamma: 0.0, degree: 0.0, coef0: 0.0 }, c, tol: 1e-3, epoch: 0, eps: *pr.pick(&[0.0, 0.1]), f32m: false, queries: vec![], budget: 100_000_000_000, tape: TapeSpec::prng(tape_seed), kind: "svr-marathon".into(), ctor: (seed % 4) as u8 }
+            Case { model: "svr".into(), x, y, kernel: KSpec { kind: "linear".into(), gamma: 0.0, degree: 0.0, coef0: 0.0 }, c, tol: 1e-3, epoch: 0, eps: *pr.pick(&[0.0, 0.1]), f32m: false, queries: vec![], budget: 100_000_000_000, tape: TapeSpec::prng(tape_seed), kind: "svr-marathon".into(), ctor: (seed % 4) as u8, post: post_of(seed) }
         }
         "svr" | "svr-f32" => {
             let n = pr.usize_in(4, 40);
@@ -1247,7 +1406,7 @@ fn gen_case(batch: &str, index: u64, seed: u64) -> Case {
             }
             let tol = if kernel.kind == "poly" && tol < 1e-3 { 1e-3 } else { tol };
             let budget = 500_000_000;
-            Case { model: "svr".into(), x, y, kernel, c, tol, epoch: 0, eps: if pr.chance(0.5) { *pr.pick(&[0.0, 0.05, 0.1, 0.5]) } else { pr.range(0.0, 0.5) }, f32m, queries, budget, tape: TapeSpec::prng(tape_seed), kind: "svr".into(), ctor: (seed % 4) as u8 }
+            Case { model: "svr".into(), x, y, kernel, c, tol, epoch: 0, eps: if pr.chance(0.5) { *pr.pick(&[0.0, 0.05, 0.1, 0.5]) } else { pr.range(0.0, 0.5) }, f32m, queries, budget, tape: TapeSpec::prng(tape_seed), kind: "svr".into(), ctor: (seed % 4) as u8, post: post_of(seed) }
         }
         _ => {
             // SVC batches
@@ -1289,6 +1448,20 @@ fn gen_case(batch: &str, index: u64, seed: u64) -> Case {
                 let mut fq = Xo::fork(seed, "far-query-row");
                 queries.push((0..p).map(|_| big * fq.range(-1.0, 1.0)).collect());
             }
+            // the polynomial degree is a real number: fractional powers need a non-negative base, so such runs live in
+            // the non-negative orthant (rows and queries folded by |.|, coef0 >= 0)
+            let mut kernel = kernel;
+            let mut fd = Xo::fork(seed, "fractional-degree");
+            if kernel.kind == "poly" && fd.chance(0.2) {
+                kernel.degree = if fd.chance(0.7) { *fd.pick(&[0.5, 1.5, 2.5]) } else { fd.range(0.2, 3.8) };
+                kernel.coef0 = kernel.coef0.abs();
+                for row in x.iter_mut().chain(queries.iter_mut()) {
+                    for v in row.iter_mut() {
+                        *v = v.abs();
+                    }
+                }
+                dkind.push_str("+fractional-degree");
+            }
             let mut tape = TapeSpec::prng(tape_seed);
             let mut kind = format!("{}/prng", dkind);
             match batch {
@@ -1318,7 +1491,7 @@ fn gen_case(batch: &str, index: u64, seed: u64) -> Case {
                 }
                 _ => panic!("unknown batch {}", batch),
             }
-            Case { model: "svc".into(), x, y, kernel, c, tol, epoch, eps: 0.0, f32m, queries, budget: DEFAULT_BUDGET, tape, kind, ctor: (seed % 4) as u8 }
+            Case { model: "svc".into(), x, y, kernel, c, tol, epoch, eps: 0.0, f32m, queries, budget: DEFAULT_BUDGET, tape, kind, ctor: (seed % 4) as u8, post: post_of(seed) }
         }
     }
 }
